@@ -344,9 +344,40 @@ def specs(prop='C15'):
             if t == 'children':
                 ctx.prove(f'{pre}.push.order[{label}]', x.rev == (not back))
 
+    # the `asts` set-up: the caller's list is only read --------------------------------------------------------------
+    def run_asts(ctx, case, loc, pre, label):
+        """the block `if asts is not None:` of walk: the work list the loops pop from is a NEW list holding the caller's
+        nodes (reversed for a forward walk, in order for back=True); the caller's list object is not the work list and
+        keeps its contents - a documented guarantee ('asts' may be a live field list such as f.a.body)"""
+        blk = None
+        for n in ast.walk(loc.node):
+            if isinstance(n, ast.If) and ast.unparse(n.test) == 'asts is not None':
+                blk = n
+                break
+        if blk is None:
+            raise LookupError('cannot locate the `asts is not None` set-up of walk')
+        nodes = [SObj(f'n{i}', {}) for i in range(case['n'])]
+        asts = list(nodes)
+        it = Interp({'_ScopeContext': lambda *a: SObj('scope_ctx', {})})
+        env = Env()
+        env.vars.update(asts=asts, back=case['back'], scope=case['scope'], self=SObj('self', {}), all=True,
+                        check_all_param=lambda f: True, self_=True)
+        it.exec_block(blk.body, env)
+        stack = env.vars.get('stack')
+        ctx.notes['outcome'] = 'return'
+        ctx.prove(f'{pre}.work_list_is_new[{label}]', isinstance(stack, list) and stack is not asts)
+        ctx.prove(f'{pre}.callers_list_untouched[{label}]', len(asts) == len(nodes) and all(a is b for a, b in zip(asts, nodes)))
+        want = nodes if case['back'] else nodes[::-1]
+        ctx.prove(f'{pre}.work_list_order[{label}]', isinstance(stack, list) and len(stack) == len(want) and
+                  all(a is b for a, b in zip(stack, want)), info='popped from the end: first node first unless back')
+        ctx.prove(f'{pre}.root_not_yielded[{label}]', env.vars.get('self_') is False)
+
+    cases_asts = [dict(n=n, back=b, scope=s) for n in (0, 1, 3) for b in (True, False) for s in (True, False)]
     cases = [dict(recurse=r, scope=s, back=b) for r in (True, False) for s in (True, False) for b in (True, False)]
     cases_lb = [dict(on=o, recurse=r, back=b) for o in ('leave', 'both') for r in (True, False) for b in (True, False)]
-    return [Fragment('fst_traverse:walk', prop, 'walk.leave_both_iteration', cases_lb, run_lb, min_obligations=5,
+    return [Fragment('fst_traverse:walk', prop, 'walk.asts_setup', cases_asts, run_asts, min_obligations=4,
+                     native=('k_walk', 'replay_walk'), notes='the `if asts is not None:` block, lists of length 0, 1, 3'),
+            Fragment('fst_traverse:walk', prop, 'walk.leave_both_iteration', cases_lb, run_lb, min_obligations=5,
                      native=('k_walk', 'replay_walk'),
                      notes="one iteration of the on='leave' and of the on='both' loop; stack top is an AST to enter or an FST to "
                            "leave; heap havocked at each yield"),
